@@ -647,14 +647,11 @@ with p_sources (fuel : nat) (s : pst) {struct fuel} : pres (list light_src) :=
   | S f =>
     if is_type s TT_AS then POk [] s
     else
-      let simple (r : rval) : bool := match r with RLit _ | RMacro _ | RVar _ | RReg _ | RNeg _ | RNegMacro _ => true | _ => false end in
       let one : pres light_src :=
         if is_type s TT_ALL then PUnm "repeat in all"
-        else if is_type s TT_GROUP then
-          let! (n, s1) := p_rvalue f (next s) in if simple n then POk (SrcGroup n) s1 else PUnm "computed name in a light list"
-        else if is_type s TT_LOCATION then
-          let! (n, s1) := p_rvalue f (next s) in if simple n then POk (SrcLocation n) s1 else PUnm "computed name in a light list"
-        else let! (n, s1) := p_rvalue f s in if simple n then POk (SrcLight n) s1 else PUnm "computed name in a light list" in
+        else if is_type s TT_GROUP then let! (n, s1) := p_rvalue f (next s) in POk (SrcGroup n) s1
+        else if is_type s TT_LOCATION then let! (n, s1) := p_rvalue f (next s) in POk (SrcLocation n) s1
+        else let! (n, s1) := p_rvalue f s in POk (SrcLight n) s1 in
       let! (src, s1) := one in
       if is_type s1 TT_AND then
         let s2 := next s1 in
